@@ -183,7 +183,7 @@ pub fn lu_h<const N: usize>(case: u8) {
     }
 }
 // @cap c11_lu_: 120
-// @cap c11_det_: 120
+// @cap c11_det_: 150
 harness!(name=c11_lu_1, prop=C11, mode=R, kind=normal, tier=quick, unwind=20, { lu_h::<1>(0) });
 harness!(name=c11_lu_2_noswap, prop=C11, mode=R, kind=normal, tier=quick, unwind=20, { lu_h::<2>(1) });
 harness!(name=c11_lu_2_swap, prop=C11, mode=R, kind=normal, tier=quick, unwind=20, { lu_h::<2>(2) });
@@ -376,3 +376,13 @@ harness!(name=c11_lusolve_2a, prop=C11, mode=R, kind=normal, tier=quick, unwind=
 harness!(name=c11_lusolve_2b, prop=C11, mode=R, kind=normal, tier=quick, unwind=20, { lusolve::<2>([1, 0]) });
 harness!(name=c11_lusolve_3a, prop=C11, mode=R, kind=normal, tier=thorough, unwind=20, { lusolve::<3>([2, 0, 1]) });
 harness!(name=c11_lusolve_3b, prop=C11, mode=R, kind=normal, tier=thorough, unwind=20, { lusolve::<3>([1, 2, 0]) });
+
+// @claim c11_det_symindef: the determinant of a symmetric, positive-diagonal, indefinite 2x2 matrix is computed (no panic) and equals a00 a11 - a01^2 (R)
+harness!(name=c11_det_symindef, prop=C11, mode=R, kind=normal, tier=quick, unwind=20, {
+    let (a, b, d) = (inp::f64(0), inp::f64(1), inp::f64(2));
+    vassume!(a >= 0.1 && a <= 10.0 && d >= 0.1 && d <= 10.0 && b >= -10.0 && b <= 10.0);
+    vassume!(a * d - b * b <= -0.01);
+    vassume!(fabs(a) >= fabs(b));
+    let m = Matrix::new(vec![a, b, b, d], 2, 2);
+    vclose!(m.det(), a * d - b * b, 1e-7, "determinant of a symmetric indefinite matrix");
+});
